@@ -50,6 +50,8 @@ type mOutput struct {
 	Root      [32]byte
 	Tuples    []wd      // leaves in tree order (nil when the root is arbitrary bytes)
 	Tree      *ref.Tree // nil when the root is arbitrary bytes
+	Extra     [][]byte  // siblings above Tree's root: Tree is the left-most subtree of a deeper tree (the rest are other people's withdrawals)
+	Synth     [][]byte  // with Tree == nil and one tuple: the sibling path from that leaf to Storage (a tree known only through this path)
 }
 
 // mBridge is the model of one bridge, built from observed successes.
@@ -424,6 +426,31 @@ func buildOutput(ts []wd, version byte, blockHash []byte) *mOutput {
 	return o
 }
 
+// buildDeepOutput embeds the tree over ts (padded with pad to a power of two, so that it is an
+// aligned subtree) as the left-most subtree of a tree that is len(extra) levels higher.
+func buildDeepOutput(ts []wd, pad [][32]byte, extra [][]byte, version byte, blockHash []byte) *mOutput {
+	leaves := make([][32]byte, 0, len(ts)+len(pad))
+	for _, t := range ts {
+		leaves = append(leaves, t.leaf())
+	}
+	leaves = append(leaves, pad...)
+	tree := ref.BuildTree(leaves)
+	o := &mOutput{Version: version, BlockHash: blockHash, Tuples: ts, Tree: tree, Extra: extra, Storage: ref.RootFromProof(tree.Root(), extra)}
+	o.Root = ref.OutputRoot(version, o.Storage[:], blockHash)
+	return o
+}
+
+// buildPathOutput is an output whose withdrawal tree is known only through one leaf and its
+// sibling path (the other subtrees are other people's withdrawals): trees of any depth at no cost.
+func buildPathOutput(t wd, siblings [][]byte, version byte, blockHash []byte) *mOutput {
+	o := &mOutput{Version: version, BlockHash: blockHash, Tuples: []wd{t}, Synth: siblings, Storage: ref.RootFromProof(t.leaf(), siblings)}
+	if o.Synth == nil {
+		o.Synth = [][]byte{}
+	}
+	o.Root = ref.OutputRoot(version, o.Storage[:], blockHash)
+	return o
+}
+
 func (w *l1World) opPropose(rt *rapid.T) *l1Step {
 	b := w.anyBridge(rt)
 	if b == nil {
@@ -547,6 +574,13 @@ func claimMsg(submitter string, t wd, o *mOutput, index uint64, pos int) *ophost
 	var proof [][]byte
 	if o.Tree != nil && pos >= 0 {
 		proof, _ = o.Tree.Proof(pos)
+		for _, it := range o.Extra {
+			proof = append(proof, append([]byte{}, it...))
+		}
+	} else if o.Tree == nil && o.Synth != nil {
+		for _, it := range o.Synth {
+			proof = append(proof, append([]byte{}, it...))
+		}
 	}
 	return ophosttypes.NewMsgFinalizeTokenWithdrawal(submitter, t.Bridge, index, t.Seq, proof, t.From, t.To,
 		sdk.NewCoin(t.Denom, math.NewIntFromUint64(t.Amount)), []byte{o.Version}, append([]byte{}, o.Storage[:]...), append([]byte{}, o.BlockHash...))
